@@ -1,12 +1,234 @@
 import ScyllaVerif.Model.StreamMap
 import ScyllaVerif.Model.Conn
-/-! C02 — every response reaches exactly the request it answers (theorems). -/
+import ScyllaVerif.Proofs.StreamMap
+import ScyllaVerif.Proofs.Conn
+/-!
+# C02 — every response reaches exactly the request it answers on a shared connection
+
+Model: `Model/StreamMap.lean` (bitmap of 512 × u64 at bit level, `ResponseHandlerMap`) and `Model/Conn.lean` (one
+connection as a transition system over caller / writer / orphaner / reader / server events).
+All theorems hold for EVERY event sequence (`run Conn.init evs`, by the inductive invariant `Inv` of
+`Proofs/Conn.lean`) and for the full 32768-id space; nothing is bounded.
+-/
 namespace ScyllaVerif.Props.C02
 open ScyllaVerif.StreamMap ScyllaVerif.Conn
 
-/-- `exhaustion` (map level): a failed allocation leaves the map unchanged. -/
-theorem allocate_none_iff_ids (m : HMap) (r : Nat) : m.allocate r = none ↔ m.ids.allocate = none := by
-  unfold HMap.allocate
-  split <;> simp_all
+/-! ## 1. the bitmap refines the abstract set of used ids -/
+
+/-- `StreamIdSet::allocate` returns the LEAST free id, it is `< 32768`, and marks exactly that id. -/
+theorem bits_refine_allocate (s s' : StreamIdSet) (id : Nat) (hlen : s.blocks.length = 512)
+    (h : s.allocate = some (id, s')) :
+    id < 32768 ∧ s.isUsed id = false ∧ (∀ j < id, s.isUsed j = true) ∧ s'.isUsed id = true ∧
+      (∀ j, j ≠ id → s'.isUsed j = s.isUsed j) ∧ s'.blocks.length = 512 :=
+  sallocate_some hlen h
+
+/-- It fails iff all 32768 ids are used. -/
+theorem bits_refine_exhausted (s : StreamIdSet) (hlen : s.blocks.length = 512) :
+    s.allocate = none ↔ ∀ id < 32768, s.isUsed id = true :=
+  sallocate_none hlen
+
+/-- `StreamIdSet::free` clears exactly one bit. -/
+theorem bits_refine_free (s : StreamIdSet) (id j : Nat) :
+    (s.free id).isUsed j = (s.isUsed j && !(j == id)) ∧ (s.free id).blocks.length = s.blocks.length :=
+  ⟨free_isUsed s id j, free_length s id⟩
+
+/-- The fresh bitmap: 512 blocks, nothing used. -/
+theorem bits_refine_new : StreamIdSet.new.blocks.length = 512 ∧ ∀ id, StreamIdSet.new.isUsed id = false :=
+  ⟨new_length, new_isUsed⟩
+
+/-- non-vacuity: with ids 0..2 taken and 1 freed again, the next id is 1 (least free), not 3. -/
+example :
+    (do let (_, s) ← StreamIdSet.new.allocate
+        let (_, s) ← s.allocate
+        let (_, s) ← s.allocate
+        let (id, _) ← (s.free 1).allocate
+        pure id) = some 1 := by decide +kernel
+
+/-! ## 2. the inductive invariant -/
+
+/-- `Inv` holds initially and is preserved by every event, hence in every reachable state. It says: every frame
+outstanding at the server carries a used stream id `< 32768`; outstanding stream ids are pairwise distinct;
+a handler registered for stream `s` with request `r` means the server owes `(s, r)`; orphaned ids are outstanding
+and have no handler; while the router lives, every outstanding `(s, r)` is either orphaned or has handler `r`;
+`request_to_stream` is the inverse of `handlers`; request ids in flight are pairwise distinct and below the
+generator; the bitmap has 512 blocks; a waiting caller is parked, queued or registered; a caller holding a
+frame holds its own. -/
+theorem inv_init : Inv Conn.init := Inv.init
+
+theorem inv_step (c : Conn) (e : Ev) (h : Inv c) : Inv (step c e) := h.step e
+
+theorem inv_reachable (evs : List Ev) : Inv (run Conn.init evs) := Inv.reachable evs
+
+/-! ## 3. a response is delivered to the request it answers, and to no other -/
+
+/-- If the server answers its outstanding entry `(s, r)` and the reader's lookup finds a handler, it is the
+handler of request `r` itself. -/
+theorem delivery_exact (c : Conn) (h : Inv c) (i s r r' : Nat) (map' : HMap)
+    (hi : c.server[i]? = some (s, r)) (hl : c.map.lookup s = (.handler r', map')) : r' = r := by
+  have hmem : (s, r) ∈ c.server := List.mem_of_getElem? hi
+  unfold HMap.lookup at hl
+  simp only at hl
+  split at hl
+  · cases hl
+  · split at hl
+    · rename_i req hget
+      simp only [Prod.mk.injEq, LookupRes.handler.injEq] at hl
+      obtain ⟨e, _⟩ := hl
+      subst e
+      exact pair_unique h.map.srvOnce (h.map.hSrv s req hget) hmem
+    · cases hl
+
+/-- A frame on a stream the server does not owe never finds a handler (nor an orphan): it is `Missing`, and
+breaks the connection — it cannot be delivered to anybody. -/
+theorem unsolicited_never_hits_handler (c : Conn) (h : Inv c) (s : Nat)
+    (hs : ∀ r, (s, r) ∉ c.server) : (c.map.lookup s).1 = .missing := by
+  have : s ∉ srvStreams c := by
+    intro hm
+    obtain ⟨⟨s', r'⟩, hm2, e⟩ := List.mem_map.mp hm
+    simp only at e; subst e
+    exact hs r' hm2
+  rw [lookup_unowed h.map this]
+
+/-- Whatever the schedule: a caller that holds a response frame (delivered or already returned) holds the
+frame the server produced for its own request. -/
+theorem done_means_own_frame (evs : List Ev) (r f : Nat)
+    (h : getCaller (run Conn.init evs).callers r = some (.done (.frame f))) : f = r :=
+  (Inv.reachable evs).callers.own r f (Or.inr h)
+
+theorem delivered_means_own_frame (evs : List Ev) (r f : Nat)
+    (h : getCaller (run Conn.init evs).callers r = some (.delivered (.frame f))) : f = r :=
+  (Inv.reachable evs).callers.own r f (Or.inl h)
+
+/-- In particular the marker frame of `unsolicited` reaches nobody. -/
+theorem unsolicited_frame_reaches_nobody (evs : List Ev) (r : Nat) (hr : r < unsolicitedMarker) :
+    getCaller (run Conn.init evs).callers r ≠ some (.done (.frame unsolicitedMarker)) := by
+  intro h
+  have := done_means_own_frame evs r _ h
+  omega
+
+/-- non-vacuity: two requests answered out of order; each gets its own frame. -/
+example :
+    let c := run Conn.init [.submit, .submit, .writerTake, .writerTake, .respond 1, .respond 0, .recv 0, .recv 1]
+    getCaller c.callers 0 = some (.done (.frame 0)) ∧ getCaller c.callers 1 = some (.done (.frame 1)) := by
+  decide +kernel
+
+/-! ## 4. a stream id is never shared by two unanswered requests -/
+
+/-- In every reachable state two distinct entries outstanding at the server carry different stream ids —
+whatever was cancelled before enqueue / before write / after write / after the response. -/
+theorem no_shared_stream (evs : List Ev) (i j : Nat) (p q : Nat × Nat) (hij : i < j)
+    (hi : (run Conn.init evs).server[i]? = some p) (hj : (run Conn.init evs).server[j]? = some q) :
+    p.1 ≠ q.1 := by
+  have h := (Inv.reachable evs).map.srvOnce
+  have nd : (srvStreams (run Conn.init evs)).Nodup := List.nodup_iff_count.mpr h
+  have pw := List.pairwise_iff_getElem.mp nd
+  obtain ⟨hi', ei⟩ := List.getElem?_eq_some_iff.mp hi
+  obtain ⟨hj', ej⟩ := List.getElem?_eq_some_iff.mp hj
+  have := pw i j (by simpa [srvStreams] using hi') (by simpa [srvStreams] using hj') hij
+  simpa [srvStreams, ei, ej] using this
+
+/-- An id is handed out again only after its answer arrived: the id given to a new request is not carried by any
+outstanding entry. -/
+theorem reuse_only_after_answer (c : Conn) (h : Inv c) (r id : Nat) (map' : HMap)
+    (ha : c.map.allocate r = some (id, map')) : ∀ r', (id, r') ∉ c.server := by
+  intro r' hm
+  obtain ⟨ids', hids, _⟩ := hallocate_some ha
+  have := (sallocate_some h.map.len hids).2.1
+  rw [(h.map.srvUsed id r' hm).2] at this
+  cases this
+
+/-- non-vacuity: request 0 is cancelled after its frame was written (stream 0 stays reserved: request 1 gets
+stream 1, and so does nobody else); only after the late answer on stream 0 is the id reused (request 2). -/
+example :
+    let c := run Conn.init [.submit, .writerTake, .cancel 0, .orphanerStep, .submit, .writerTake]
+    c.server = [(0, 0), (1, 1)] := by decide +kernel
+example :
+    let c := run Conn.init [.submit, .writerTake, .cancel 0, .orphanerStep, .submit, .writerTake,
+      .respond 0, .submit, .writerTake]
+    c.server = [(1, 1), (0, 2)] ∧ getCaller c.callers 0 = some .abandoned := by decide +kernel
+/-- non-vacuity: cancelled before the write (notice processed first, then the frame is written anyway); the late
+answer finds the handler of the abandoned caller and is discarded; nobody else is affected. -/
+example :
+    let c := run Conn.init [.submit, .cancel 0, .orphanerStep, .writerTake, .submit, .writerTake, .respond 0,
+      .respond 0, .recv 1]
+    c.server = [] ∧ getCaller c.callers 0 = some .abandoned ∧ getCaller c.callers 1 = some (.done (.frame 1)) := by
+  decide +kernel
+
+/-! ## 5. no solicited answer is lost, the Rust assert cannot fire, exhaustion -/
+
+/-- While the router lives, an answer the server owes is never treated as unsolicited. -/
+theorem respond_never_missing (c : Conn) (h : Inv c) (hb : c.broken = false) (i s r : Nat)
+    (hi : c.server[i]? = some (s, r)) : (c.map.lookup s).1 ≠ .missing := by
+  have hmem : (s, r) ∈ c.server := List.mem_of_getElem? hi
+  rcases lookup_owed h.map hb hmem with ⟨_, hl⟩ | ⟨_, _, hl⟩ <;> rw [hl] <;> simp
+
+/-- … and a caller that is still waiting when its answer arrives receives it. -/
+theorem respond_reaches_waiting_caller (c : Conn) (h : Inv c) (hb : c.broken = false) (i s r : Nat)
+    (hi : c.server[i]? = some (s, r)) (hw : getCaller c.callers r = some .waiting) :
+    getCaller (step c (.respond i)).callers r = some (.delivered (.frame r)) := by
+  have hmem : (s, r) ∈ c.server := List.mem_of_getElem? hi
+  have hq : r ∉ c.sending ∧ r ∉ c.queue := by
+    have h1 := h.map.reqOnce r
+    have h2 : 0 < (srvReqs c).count r := List.count_pos_iff.mpr (mem_reqs hmem)
+    constructor <;> (intro hm; have := List.count_pos_iff.mpr hm; omega)
+  obtain ⟨s', hs'⟩ : ∃ s', c.map.handlers.get s' = some r := by
+    rcases h.callers.tracked r hw with m | m | m
+    · exact absurd m hq.1
+    · exact absurd m hq.2
+    · exact m
+  have : s' = s := by
+    have hsrv' := h.map.hSrv s' r hs'
+    -- request ids outstanding at the server are distinct, so the entry of `r` is unique
+    have once := h.map.reqOnce r
+    by_cases e : s' = s
+    · exact e
+    · exfalso
+      have two : 2 ≤ (srvReqs c).count r := two_entries_count e hsrv' hmem
+      omega
+  subst this
+  have hno : s' ∉ c.map.orphans := by
+    intro ho
+    have := (h.map.orphSrv s' ho).2
+    rw [hs'] at this; cases this
+  simp only [step, hb, Bool.false_eq_true, if_false, hi, hlookup_handler hno hs', getCaller_deliver, hw]
+  simp
+
+/-- The Rust `assert!(prev_handler.is_none())` in `ResponseHandlerMap::allocate` cannot fire: a freshly
+allocated id has no handler (and is not orphaned). -/
+theorem allocate_fresh_has_no_handler (c : Conn) (h : Inv c) (id : Nat) (ids' : StreamIdSet)
+    (ha : c.map.ids.allocate = some (id, ids')) :
+    c.map.handlers.get id = none ∧ id ∉ c.map.orphans := by
+  have hfree := (sallocate_some h.map.len ha).2.1
+  have notSrv : ∀ r, (id, r) ∉ c.server := by
+    intro r hm
+    rw [(h.map.srvUsed id r hm).2] at hfree; cases hfree
+  constructor
+  · cases hg : c.map.handlers.get id with
+    | none => rfl
+    | some r => exact absurd (h.map.hSrv id r hg) (notSrv r)
+  · intro ho
+    obtain ⟨⟨s', r'⟩, hm2, e⟩ := List.mem_map.mp (h.map.orphSrv id ho).1
+    simp only at e; subst e
+    exact notSrv r' hm2
+
+/-- Exhaustion: when no stream id is free the writer answers the task with `UnableToAllocStreamId`, drops it
+from the queue and leaves the map (and everything else) unchanged. -/
+theorem exhaustion (c : Conn) (r : Nat) (q : List Nat) (hb : c.broken = false) (hq : c.queue = r :: q)
+    (hnone : c.map.allocate r = none) :
+    step c .writerTake = { c with queue := q, callers := deliver c.callers r (.err .unableToAllocStreamId) } := by
+  simp only [step, hb, Bool.false_eq_true, if_false, hq, hnone]
+
+/-- … which happens exactly when all 32768 ids are reserved. -/
+theorem exhaustion_iff_full (c : Conn) (h : Inv c) (r : Nat) :
+    c.map.allocate r = none ↔ ∀ id < 32768, c.map.ids.isUsed id = true := by
+  rw [hallocate_none]; exact sallocate_none h.map.len
+
+/-- Used ids are exactly the ids owed by the server in every reachable state; so exhaustion means 32768
+unanswered requests. (Direction needed here: outstanding ⇒ used is `Inv.map.srvUsed`.) -/
+theorem exhausted_caller_gets_error (c : Conn) (r : Nat) (q : List Nat) (hb : c.broken = false)
+    (hq : c.queue = r :: q) (hnone : c.map.allocate r = none) (hw : getCaller c.callers r = some .waiting) :
+    getCaller (step c .writerTake).callers r = some (.delivered (.err .unableToAllocStreamId)) := by
+  rw [exhaustion c r q hb hq hnone]
+  simp [getCaller_deliver, hw]
 
 end ScyllaVerif.Props.C02
